@@ -2,6 +2,7 @@
 from .. import union
 from ..runner import Outcome, digest
 from ..faults import iter_actors
+from ..patterns import displaced_close, DISPLACED_CLOSE_KEY
 
 ID = "C03"
 LEVEL = "exploration"
@@ -139,7 +140,16 @@ def check(rec):
             meta = ev[-1] if isinstance(ev[-1], tuple) else None
         if meta is not None:
             _judge(bad, actor, kind, meta, stack.get(actor, ()), caged)
+    victims = displaced_close(rec)
+    for violation in out:
+        if violation["rule"] == "C03/internal-error-surfaced" and "RuntimeError" in violation["msg"] \
+                and any(violation["msg"].startswith(actor + " saw") for actor in victims):
+            violation["key"] = "%s (%s): %s" % (DISPLACED_CLOSE_KEY, ", ".join(victims),
+                                               violation["msg"])
     return out
+
+
+F38_CASE = None      # set below: the smallest history found by the thorough tier
 
 
 def _judge(bad, actor, kind, meta, scopes, caged):
@@ -207,3 +217,21 @@ def run_case(case):
     finally:
         cleanup(rec)
     return out
+
+
+F38_CASE = {"config": {}, "engine": "world", "family": "C05", "plan": [], "property": ID, "scenario": {
+    "resources": {}, "actors": [{"name": "own", "ops": [{"op": "scope", "label": "S1", "body": [], "children": [
+        {"name": "c2", "ops": [{"op": "postpone", "k": 2}, {"op": "raise", "type": "exit"}]},
+        {"name": "c3", "ops": [{"op": "finally", "handler": [{"op": "sleep", "d": 1}], "body": [
+            {"op": "scope", "label": "S4", "body": [], "children": [
+                {"name": "c6", "ops": [{"op": "scope", "label": "S7", "children": [], "body": []},
+                                       {"op": "raise", "type": "kbd"}]}]}]}]}]}]}]}}
+
+
+def probe_finding(finding):
+    """F38: re-demonstrate the listed finding on the current tree."""
+    if finding["id"] != "F38":
+        return False
+    import copy
+    out = run_case(copy.deepcopy(F38_CASE))
+    return any(DISPLACED_CLOSE_KEY in v.get("key", "") for v in out.violations)
